@@ -1277,12 +1277,25 @@ func (c *FnCtx) execSelect(bc *blockCtx, x *ssa.Select) {
 	for i := 2; i < tt.Len(); i++ {
 		fs = append(fs, c.freshVal(bc.st, tt.At(i).Type(), "select.recv"))
 	}
-	// receiving marks waited(ch) for the chosen case
+	// receiving marks waited(ch) for the chosen case; a case on a nil channel is never chosen
+	// (execution continues only if the chosen case is on a non-nil channel)
+	var ready []string
+	for i, s := range x.States {
+		if ch := c.operand(bc, s.Chan); ch.K == KRef {
+			ready = append(ready, fmt.Sprintf("(=> (= %s %d) (not (= %s 0)))", idx, i, ch.T))
+		}
+	}
+	if len(ready) > 0 {
+		rd := c.sc.fresh("select.ready", "Bool")
+		c.sc.assert(sImp(rd, sAnd(ready...)))
+		bc.reach = sAnd(bc.reach, rd)
+	}
 	for i, s := range x.States {
 		if s.Dir == types.RecvOnly {
 			ch := c.operand(bc, s.Chan)
 			if ch.K == KRef {
 				a := c.heapGet(bc.st, "CH:waited", arrSort("Bool"))
+				c.localTouched["CH:waited"] = true
 				c.heapSet(bc.st, "CH:waited", arrSort("Bool"), sIte(fmt.Sprintf("(= %s %d)", idx, i), "(store "+a+" "+ch.T+" true)", a))
 			}
 		}
